@@ -662,7 +662,67 @@ def w_grids(ctx, rng, i):
     ctx.count_case(("grid", kind, shp), nontrivial=True)
 
 
+def w_predefined(ctx, rng, i):
+    """The predefined graph builders (star, chain, complete, empty) for every graph class and every root: the object they
+    return is the graph / tree on exactly the textbook edge set, judged like any other."""
+    import menpo.shape as ms
+    from menpo.shape import graph_predefined as gp
+    n = int(rng.integers(2, 9))
+    d = int(rng.integers(2, 4))
+    pts = gen.points(rng, n, d)
+    shape_arg = ms.PointCloud(pts)
+    kind = ["star", "chain", "chain_closed", "complete", "empty"][i % 5]
+    classes = {"star": ["Tree", "PointTree", "DirectedGraph", "PointDirectedGraph", "UndirectedGraph", "PointUndirectedGraph"],
+               "chain": ["Tree", "PointTree", "DirectedGraph", "PointDirectedGraph", "UndirectedGraph", "PointUndirectedGraph"],
+               "chain_closed": ["DirectedGraph", "PointDirectedGraph", "UndirectedGraph", "PointUndirectedGraph"],
+               "complete": ["UndirectedGraph", "PointUndirectedGraph", "DirectedGraph", "PointDirectedGraph"], "empty": ["-"]}[kind]
+    cname = classes[(i // 5) % len(classes)]
+    if cname.startswith("Point") and not isinstance(shape_arg, ms.PointCloud):
+        shape_arg = ms.PointCloud(pts)
+    root = int(rng.integers(0, n))
+    try:
+        if kind == "star":
+            g = gp.star_graph(shape_arg, root, graph_cls=getattr(ms, cname))
+            edges = [(root, v) for v in range(n) if v != root]
+        elif kind.startswith("chain"):
+            g = gp.chain_graph(shape_arg, graph_cls=getattr(ms, cname), closed=kind.endswith("closed"))
+            edges = [(v, v + 1) for v in range(n - 1)] + ([(n - 1, 0)] if kind.endswith("closed") and n > 2 else [])
+            if kind.endswith("closed") and n == 2:
+                edges = [(0, 1), (1, 0)]
+            root = 0
+        elif kind == "complete":
+            g = gp.complete_graph(shape_arg, graph_cls=getattr(ms, cname))
+            edges = [(a, b) for a in range(n) for b in range(a + 1, n)]
+        else:
+            g = gp.empty_graph(shape_arg, return_pointgraph=isinstance(shape_arg, ms.PointCloud))
+            edges = []
+            cname = type(g).__name__
+    except Exception as e:
+        ctx.fail("predefined_graph_builder_raised", cls=cname, mech=kind + ":" + type(e).__name__, error=repr(e)[:160])
+        ctx.count_case(("predefined", kind, cname, "raised"), nontrivial=False)
+        return
+    cls = type(g).__name__
+    directed = "Directed" in cls or "Tree" in cls
+    if not directed and kind == "chain_closed" and n == 2:
+        edges = [(0, 1)]
+    ctx.see("classes", cls)
+    if cls != cname and kind != "empty":
+        ctx.fail("predefined_graph_builder_returned_another_class", cls=cname, mech=kind, got=cls)
+    try:
+        E = judge_structure(ctx, g, n, edges, directed, cls)
+        if "Tree" in cls:
+            judge_tree(ctx, g, n, E, root, cls)
+            judge_paths(ctx, g, n, E, True, cls, [(root, int(rng.integers(0, n))), (int(rng.integers(0, n)), int(rng.integers(0, n)))])
+        judge_cycles(ctx, g, n, E, directed, cls)
+    except (TypeError, AttributeError, IndexError, KeyError) as e:
+        ctx.fail("tree_relations_inconsistent", cls=cls, mech="predefined_%s:query_raised_%s" % (kind, type(e).__name__), error=repr(e)[:160])
+    if hasattr(g, "points") and isinstance(shape_arg, ms.PointCloud) and not np.array_equal(g.points, pts):
+        ctx.fail("graph_points_differ_from_the_shape_they_came_from", cls=cls, mech=kind)
+    ctx.count_case(("predefined", kind, cname, min(n, 4), root == 0), nontrivial=n >= 3, sample={"builder": kind, "cls": cname, "n": n, "root": root} if i < 3 else None)
+
+
 WORKLOADS = [
+    Workload("predefined_builders", w_predefined, quick=600, thorough=12000),
     Workload("grids", w_grids, quick=200, thorough=4000),
     Workload("self_loops", w_self_loops, quick=400, thorough=8000),
     Workload("signed_weights", w_signed_weights, quick=400, thorough=8000),
